@@ -700,7 +700,8 @@ class CCFG:
         return [(n, '')]
 
     # queries (same semantics as the Python CFG)
-    def reach(self, start, avoid=None, forward=True, include_start=False):
+    def reach(self, start, avoid=None, forward=True, include_start=False,
+              skip_edge=None):
         starts = start if isinstance(start, (list, tuple, set)) else [start]
         seen = set()
         todo = []
@@ -714,6 +715,8 @@ class CCFG:
             n = todo.pop()
             for m, lab in (n.succ if forward else n.pred):
                 if m.id in seen or (avoid and avoid(m)):
+                    continue
+                if skip_edge is not None and forward and skip_edge(n, lab, m):
                     continue
                 seen.add(m.id)
                 todo.append(m)
